@@ -136,6 +136,8 @@ class PipeEnd(tr_abc.AsyncStreamTransport):
         self.nsend = 0
         self.nrecv = 0
         self.sent_total = 0
+        self.sync_send = False           # True: send_all() completes WITHOUT suspending (a socket whose buffer has room)
+        self._extra: dict = {}           # typed attributes (filled by c15_tcp.MemBackend when it adopts this end)
 
     def backend(self):
         return self._be
@@ -145,7 +147,7 @@ class PipeEnd(tr_abc.AsyncStreamTransport):
 
     @property
     def extra_attributes(self):
-        return {}
+        return self._extra
 
     def _wake(self) -> None:
         w = self._waiter
@@ -192,7 +194,8 @@ class PipeEnd(tr_abc.AsyncStreamTransport):
             self.peer.inbox += data
             self.peer._wake()
         self.sent_total += len(data)
-        await asyncio.sleep(0)
+        if not self.sync_send:
+            await asyncio.sleep(0)
 
     async def send_eof(self) -> None:
         if self.peer is not None:
@@ -265,16 +268,19 @@ def client_context() -> ssl.SSLContext:
 class TLSPeer:
     """server side of the TLS connection over PipeEnd `end`.
     handshake: "ok" | "garbage" (answers the ClientHello with junk) | "eof" (closes at once) | "silent" (never answers)
+               | "slow" (a complete handshake that only starts after `hs_delay` units of virtual time)
     after:     "reply"   answer the peer's close_notify with ours, then close the pipe end
                "silent"  never read again (the other side's unwrap() waits until its shutdown timeout)
                "first"   send close_notify first, then behave like "reply"
+               "firstgone"  send close_notify first and close the pipe end at once (does not wait for the answer)
                "drop"    close the pipe end without any close_notify as soon as something arrives
     """
 
-    def __init__(self, end: PipeEnd, handshake: str = "ok", after: str = "reply") -> None:
+    def __init__(self, end: PipeEnd, handshake: str = "ok", after: str = "reply", hs_delay: float = 0.0) -> None:
         self.end = end
         self.handshake = handshake
         self.after = after
+        self.hs_delay = hs_delay
         self.inc = ssl.MemoryBIO()
         self.out = ssl.MemoryBIO()
         self.obj = server_context().wrap_bio(self.inc, self.out, server_side=True)
@@ -315,6 +321,8 @@ class TLSPeer:
                 await self.end.recv_into(buf)
                 await self.end.send_all(b"\x15\x03\x01\x00\x02\x02\x28" + b"junk" * 8)
                 await asyncio.get_running_loop().create_future()
+            if self.handshake == "slow":
+                await asyncio.sleep(self.hs_delay)
             await self._pump(self.obj.do_handshake)
             self.log.append("handshake-done")
             await self.go_after.wait()
@@ -323,6 +331,15 @@ class TLSPeer:
             if self.after == "drop":
                 buf = bytearray(65536)
                 await self.end.recv_into(buf)
+                await self.end.aclose()
+                return
+            if self.after == "firstgone":
+                try:
+                    self.obj.unwrap()
+                except (ssl.SSLWantReadError, ssl.SSLWantWriteError):
+                    pass
+                await self._flush()
+                self.log.append("sent-close-notify")
                 await self.end.aclose()
                 return
             if self.after == "first":
